@@ -420,6 +420,9 @@ func (c *Ctx) nonNilAt(f *ssa.Function, v ssa.Value, at ssa.Instruction) bool {
 	if c.knownNonNil(v, map[ssa.Value]bool{}) {
 		return true
 	}
+	if at != nil && at.Parent() == f && c.nonNilOnAllPaths(f, v, at) {
+		return true
+	}
 	for _, cand := range []ssa.Value{v, c.Resolve(v)} {
 		for _, e := range nonNilEdgesRaw(f, cand) {
 			if DominatedByEdge(f, at, e.B, e.K, PathQ{}) {
